@@ -19,6 +19,9 @@ pub enum Inject {
     BwOutOfOrder,
     /// bigWig: a value that overlaps its predecessor
     BwOverlap,
+    /// bigWig: predecessor (0,4) followed by an offender of a given shape (see OVERLAP_SHAPES):
+    /// zero-length at the predecessor's start / inside it, nested, identical, ending inside ...
+    BwOverlapShape(u8),
     StartGtEnd,
     /// bigWig: end beyond the chromosome
     BwEndGtSize,
@@ -77,6 +80,8 @@ fn pick(sel: u8, len: usize) -> usize {
 }
 
 const SHIFT: u32 = 10;
+/// offenders after a value (0,4): every one starts before 4, so the pair is out of order or overlapping
+const OVERLAP_SHAPES: [(u32, u32); 8] = [(0, 0), (1, 1), (3, 3), (0, 2), (0, 4), (0, 6), (1, 3), (3, 6)];
 
 /// raw items + sizes + optional text override after injecting the violation
 struct Built {
@@ -176,6 +181,7 @@ fn build(case: &Case) -> Built {
         Inject::None => {}
         Inject::BwOutOfOrder => insert_after(&mut chroms, vec![(5, 6), (1, 2)], true),
         Inject::BwOverlap => insert_after(&mut chroms, vec![(0, 4), (2, 6)], true),
+        Inject::BwOverlapShape(k) => insert_after(&mut chroms, vec![(0, 4), OVERLAP_SHAPES[k as usize % OVERLAP_SHAPES.len()]], true),
         Inject::StartGtEnd => insert_after(&mut chroms, vec![(5, 2)], is_bw),
         Inject::BwEndGtSize => {
             // make item k a positive-length value ending at >= 2, then shrink the chromosome below it
@@ -376,6 +382,7 @@ fn inject_for(bw: bool) -> BoxedStrategy<Inject> {
     let mut v = common;
     if bw {
         v.extend([Inject::BwOutOfOrder, Inject::BwOverlap, Inject::BwEndGtSize]);
+        v.extend((0..OVERLAP_SHAPES.len() as u8).map(Inject::BwOverlapShape));
     } else {
         v.extend([Inject::BbStartOrder, Inject::BbStartGeSize]);
     }
@@ -432,7 +439,7 @@ impl Prop for C13 {
     const ID: &'static str = "C13";
     const TERMINATION: bool = true;
     fn rule() -> String {
-        "a valid multi-chromosome input with ONE violation injected at a generated position: class in {bigWig out-of-order, overlap, start>end, end>size; bigBed start order, start>=size; \
+        "a valid multi-chromosome input with ONE violation injected at a generated position: class in {bigWig out-of-order, overlap (also eight shapes of the offender after a value (0,4): zero-length at its start / inside it, nested, identical, longer, ending inside), start>end, end>size; bigBed start order, start>=size; \
          unknown chromosome; chromosome order with sorted input required; malformed line (non-numeric, missing column, negative, blank); empty input} x {in front of the first, after the first, middle, last item} x {first, middle, last chromosome} \
          x {bigWig, bigBed} x {infallible iterator, fallible iterator, serial text, parallel text} x {single, two pass} (that grid once as fixed cases, plus generated bases/options); \
          oracle: the call returns Err (Ok is a violation), does not panic and returns within the deadline; valid degenerate inputs (only zero-length items, one item, items only at 0 / at the end, one chromosome all zero-length) must return, and if Ok the file must read back. \
@@ -545,10 +552,12 @@ impl Prop for C13 {
         ];
         for bw in [true, false] {
             let classes: Vec<Inject> = if bw {
-                vec![
+                let mut c = vec![
                     Inject::BwOutOfOrder, Inject::BwOverlap, Inject::StartGtEnd, Inject::BwEndGtSize, Inject::UnknownChrom,
                     Inject::ChromOrder, Inject::NonNumeric, Inject::MissingColumn, Inject::Negative, Inject::Blank, Inject::Empty,
-                ]
+                ];
+                c.extend((0..OVERLAP_SHAPES.len() as u8).map(Inject::BwOverlapShape));
+                c
             } else {
                 vec![
                     Inject::BbStartOrder, Inject::StartGtEnd, Inject::BbStartGeSize, Inject::UnknownChrom, Inject::ChromOrder,
